@@ -52,6 +52,7 @@ type kase struct {
 	mod      string // what the PostDial plugins do to the socket (see world.mod)
 	modFirst bool
 	class    string
+	cutShort bool // the case was cut short at a leftover-reader moment: no probe phase to judge
 	accepts  string
 	badFlag  bool
 	noReader bool
@@ -387,7 +388,7 @@ func runCase(k *kase, script []cmd, rng func(int) int, steps int) {
 
 func oracle(st *Stats, idx int, k *kase) {
 	h := k.human()
-	fail := func(key, what string) { st.Fail(idx, key, what, h) }
+	fail := func(key, what string) { report(st, idx, key, what, h) }
 	if k.class == "hung" {
 		fail("hang", "an actor neither completed nor parked within the watchdog")
 	}
@@ -534,7 +535,7 @@ func oracle(st *Stats, idx int, k *kase) {
 	if k.budget == 0 && len(k.rounds) > 0 {
 		fail("redial-disabled", "a redial round ran with budget 0")
 	}
-	if pi < 1 {
+	if pi < 1 || k.cutShort {
 		return
 	}
 	pre := k.snaps[pi-1] // drained, before the probe
@@ -635,6 +636,50 @@ func oracle(st *Stats, idx int, k *kase) {
 	if okRounds > cuts {
 		fail(staleKey("redial-of-healthy-connection"), fmt.Sprintf("%d successful redials for %d connection losses", okRounds, cuts))
 	}
+}
+
+// report records an oracle failure. hlib keeps the first 200 failures of a run only; the known
+// findings recur in hundreds of thorough-tier cases, so each key is recorded a few times and
+// counted beyond that - otherwise they use up the 200 and a failure of ANOTHER class later in
+// the run would be dropped.
+var failsPerKey = map[string]int{}
+
+func report(st *Stats, idx int, key, what, human string) {
+	failsPerKey[key]++
+	st.Count("oracle-failure:" + key)
+	if failsPerKey[key] <= 5 {
+		st.Fail(idx, key, what, human)
+	}
+}
+
+// leftoverAt returns the first command during which a read loop that was blocked in ReadMessage
+// next to ANOTHER blocked read loop of the same session left it although the command was no
+// connection loss (cut) - and the name of that reader. Both loops being in "read" at a quiet
+// moment means two loops on one socket (every earlier connection is closed or was replaced);
+// nothing but bytes arriving on the current connection (or their absence from the buffer the
+// other loop expected them in) can move one of them in a command that cuts nothing.
+func leftoverAt(k *kase) (int, string) {
+	for i := 1; i < len(k.snaps) && i < len(k.cmds); i++ {
+		if k.cmds[i].op == "cut" {
+			continue
+		}
+		var reading []string
+		for n, p := range k.snaps[i-1].pos {
+			if n[0] == 'r' && p == "read" {
+				reading = append(reading, n)
+			}
+		}
+		if len(reading) < 2 {
+			continue
+		}
+		sortNames(reading)
+		for _, n := range reading {
+			if k.snaps[i].pos[n] != "read" {
+				return i, n
+			}
+		}
+	}
+	return -1, ""
 }
 
 // poolArtifact: a call was refused by the server with code 500 in a case that saturated the pool.
@@ -764,6 +809,26 @@ func main() {
 		}
 		st.Count(fmt.Sprintf("rounds:%d", min(len(k.rounds), 5)))
 		st.Count("final:" + k.snaps[len(k.snaps)-1].status)
+		// Two read loops on one socket (known finding): when the read loop of a replaced but never
+		// closed connection is still alive next to the current one, the two share the socket's
+		// bufio.Reader; the leftover loop can consume the bytes of a reply. Recognised on the
+		// implementation's own observations only (see leftoverAt); the case is then reported under
+		// its own key and only the commands BEFORE that moment are checked by the oracle and handed
+		// to the correspondence (the model has one buffer per connection and cannot exhibit it).
+		if li, who := leftoverAt(k); li >= 0 {
+			st.Count("leftover-reader-steals-reply")
+			report(st, i, "leftover-reader-steals-reply", fmt.Sprintf("two read loops of the session were alive on one socket; during command %d (%s %s, no loss) the leftover read loop %s left ReadMessage, i.e. it consumed bytes sent on the current connection", li, k.cmds[li].op, k.cmds[li].arg, who), k.human())
+			k.cmds = k.cmds[:li]
+			k.snaps = k.snaps[:li]
+			var rs []roundRec
+			for _, r := range k.rounds {
+				if r.endCmd < li {
+					rs = append(rs, r)
+				}
+			}
+			k.rounds = rs
+			k.class, k.accepts, k.noReader, k.cutShort = "", "", false, true
+		}
 		oracle(st, i, k)
 		w.Add(k.inputs(), k.observed())
 		if nl > 0 {
